@@ -29,7 +29,7 @@ let parse_ops deliver names (f : string) : op list =
         let t = !tag in incr tag;
         Add (mb (), z_of_int date, n_of_int t, n_of_int size)
     | 'g' -> Get (mb (), parse_handle (List.nth rest 1))
-    | 'l' -> Lst (mb ())
+    | 'l' | 'h' -> Lst (mb ())   (* h: a listing the caller keeps; the model's answer is the listing *)
     | 's' -> Seen (mb (), parse_handle (List.nth rest 1))
     | 'r' -> Remove (mb (), parse_handle (List.nth rest 1))
     | 'p' -> Purge (mb ())
@@ -93,10 +93,11 @@ let () =
            optionally removing the oldest message of each mailbox it is handed) is judged on the final
            abstract state: the walk hands over exactly min k (number of non-empty mailboxes) mailboxes,
            each with its listing, never calls the visitor again, and (mut) exactly those lose their oldest *)
+        let ops_field = ops in
         let (ops, wop) =
           let l = if ops = "-" then [] else split ',' ops in
           match List.rev l with
-          | w :: rest when String.length w > 0 && w.[0] = 'w' ->
+          | w :: rest when String.length w > 0 && (w.[0] = 'w' || w = "c") ->
               ((if rest = [] then "-" else String.concat "," (List.rev rest)), Some w)
           | _ -> (ops, None) in
         let ops = parse_ops deliver names ops in
@@ -104,6 +105,29 @@ let () =
         let model = if kind = "mem" then run_mem cfg ops else run_file cfg [] ops in
         let wtok = match wop with
           | None -> []
+          | Some "c" ->
+              (* the listings handed out by the h operations, read again at the end: each message still
+                 belongs to the mailbox it was listed for, has its size, and — if it is still live — its
+                 content; a message that has left since is marked - *)
+              let raw = if ops_field = "-" then [] else split ',' ops_field in
+              let raw = List.filter (fun o -> o <> "c") raw in
+              let res = run_spec cfg spec_init ops in
+              let lists = List.filter_map (fun (o, (ob, _)) ->
+                if String.length o > 0 && o.[0] = 'h' then
+                  (match ob with
+                   | OList l ->
+                       let mbi = int_of_string (String.sub o 1 (String.length o - 1)) in
+                       let live_now =
+                         (match List.rev (run_spec cfg spec_init (ops @ [Lst names.(mbi)])) with
+                          | (OList ln, _) :: _ -> List.map (fun (k, _) -> int_of_nat k) ln
+                          | _ -> []) in
+                       Some (String.concat "," (List.map (fun (k, m) ->
+                         let k = int_of_nat k in
+                         Printf.sprintf "%d.%d.%d.%s" mbi k (int_of_n m.m_size)
+                           (if List.mem k live_now then string_of_int (int_of_n m.m_tag) else "-")) l))
+                   | _ -> Some "?")
+                else None) (List.combine raw res) in
+              ["C" ^ String.concat ";" lists]
           | Some w ->
               (match split ':' (String.sub w 1 (String.length w - 1)) with
                | k :: rest ->
